@@ -88,6 +88,8 @@ func JS(ops []Op) string {
 		case "mutprops":
 			// overwrite every scalar reachable from the properties with a string (a value every container type takes)
 			b.WriteString("(function(p) { function m(o) { if (o && typeof o === 'object') { if (o.length !== undefined) { for (var i = 0; i < o.length; i++) { if (o[i] && typeof o[i] === 'object') { m(o[i]); } else { o[i] = 'mut'; } } } else { for (var k in o) { if (o[k] && typeof o[k] === 'object') { m(o[k]); } else if (k !== 'ctx') { o[k] = 'mut'; } } } } } m(p); })(_.props);\n")
+		case "matchstore":
+			fmt.Fprintf(&b, "_.bindings[%s] = _.match({\"a\": \"?v\"}, {\"a\": 1, \"b\": 2}, {})[0];\n", js(o.K))
 		case "propcount":
 			// (one count per execution, however often the op occurs in it: pc__ is a local of the script)
 			fmt.Fprintf(&b, "if (typeof pc__ === 'undefined') { var pc__ = (_.props.visits__ || 0) + 1; _.props.visits__ = pc__; } _.bindings[%s] = pc__;\n", js(o.K))
@@ -203,6 +205,8 @@ func Native(ops []Op, partial, inplace bool) func(context.Context, match.Binding
 				cur = match.Bindings{}
 			case "propcount":
 				cur[o.K] = float64(1)
+			case "matchstore":
+				cur[o.K] = map[string]interface{}{"?v": float64(1)}
 			case "fresh":
 				exe.Bs = match.Bindings(enc.DeepCopy(o.V).(map[string]interface{}))
 				return exe, nil
@@ -240,7 +244,7 @@ func Native(ops []Op, partial, inplace bool) func(context.Context, match.Binding
 
 func actionSource(ops []Op) *core.ActionSource {
 	for _, o := range ops {
-		if o.Name == "matchdeep" {
+		if o.Name == "matchdeep" || o.Name == "matchstore" {
 			return &core.ActionSource{Interpreter: "ecmascript-ext", Source: JS(ops)}
 		}
 	}
@@ -321,7 +325,7 @@ func EncOps(ops []Op) interface{} {
 			a = append(a, T{"nullif", o.K, enc.V(o.V)})
 		case "setfrom":
 			a = append(a, T{"setfrom", o.K, o.K2})
-		case "del", "mutnested", "propcount":
+		case "del", "mutnested", "propcount", "matchstore":
 			a = append(a, T{o.Name, o.K})
 		case "fresh":
 			a = append(a, T{"fresh", enc.Bs(match.Bindings(o.V.(map[string]interface{})))})
@@ -404,7 +408,7 @@ func DecOps(x interface{}) []Op {
 		switch op.Name {
 		case "emit":
 			op.V = enc.D(o[1])
-		case "emitb", "del", "mutnested", "propcount":
+		case "emitb", "del", "mutnested", "propcount", "matchstore":
 			op.K = o[1].(string)
 		case "set", "nullif":
 			op.K, op.V = o[1].(string), enc.D(o[2])
